@@ -42,7 +42,8 @@ type methodJ struct {
 	Variadic bool   `json:"variadic"`
 	Results  []int  `json:"results"`
 	Err      bool   `json:"err"`
-	Behave   string `json:"behave"` // script | echo
+	ErrType  string `json:"err_type"` // "" = the interface type error; ptrstruct | slice | string = a concrete type implementing error
+	Behave   string `json:"behave"`   // script | echo
 }
 
 type resJ struct {
@@ -80,6 +81,7 @@ type c08Case struct {
 	Res       resJ      `json:"res"`
 	Rtypes    []int     `json:"rtypes"`
 	RtDef     bool      `json:"rt_default"`
+	Group     bool      `json:"group"` // a group of concurrent calls: see group.go
 }
 
 type sideObs struct {
@@ -304,7 +306,11 @@ func funcType(b *built, m methodJ) (reflect.Type, []reflect.Type, error) {
 		}
 	}
 	if m.Err {
-		outT = append(outT, errorType)
+		if et, ok := errTypes[m.ErrType]; ok {
+			outT = append(outT, et)
+		} else {
+			outT = append(outT, errorType)
+		}
 	}
 	if m.Variadic && (len(in) == 0 || in[len(in)-1].Kind() != reflect.Slice) {
 		return nil, nil, fmt.Errorf("variadic method needs a final slice parameter")
@@ -347,7 +353,11 @@ func makeFunc(c *c08Case, b *built, m methodJ, log *[]logEntry) (reflect.Value, 
 		switch c.Res.Kind {
 		case "error":
 			if m.Err {
-				res[len(outT)-1] = reflect.ValueOf(errors.New(unhexs(c.Res.Msg))).Convert(errorType)
+				if _, ok := errTypes[m.ErrType]; ok {
+					res[len(outT)-1] = errValue(m.ErrType, unhexs(c.Res.Msg))
+				} else {
+					res[len(outT)-1] = reflect.ValueOf(errors.New(unhexs(c.Res.Msg))).Convert(errorType)
+				}
 			}
 			return res
 		case "panic":
@@ -516,6 +526,9 @@ func runCase(line []byte, out *json.Encoder) error {
 		return err
 	}
 	hvlib.Begin(c.ID)
+	if c.Group {
+		return runGroup(line, out)
+	}
 	obs := c08Obs{ID: c.ID}
 	b, err := build(&c)
 	if err != nil {
@@ -627,8 +640,16 @@ func runCase(line []byte, out *json.Encoder) error {
 			}
 			n := len(outs)
 			if targetM.Err {
-				if !outs[n-1].IsNil() {
-					classify(outs[n-1].Interface().(error), &obs.Local)
+				last := outs[n-1]
+				isNil := false
+				switch last.Kind() {
+				case reflect.Ptr, reflect.Slice, reflect.Map, reflect.Interface, reflect.Func, reflect.Chan:
+					isNil = last.IsNil()
+				default:
+					isNil = last.IsZero()
+				}
+				if !isNil {
+					classify(last.Interface().(error), &obs.Local)
 				}
 				n--
 			}
